@@ -451,7 +451,9 @@ class XBuffer(ABC):
     def free(self, offset, size):
         nch = Chunk(offset, offset + size)
         # insert sorted
-        if offset > self.chunks[-1].start:  # new chuck at the end
+        if (
+            not self.chunks or offset > self.chunks[-1].start
+        ):  # new chuck at the end (or no free chunk left)
             self.chunks.append(nch)
         else:  # new chuck needs to be inserted
             for ic, ch in enumerate(self.chunks):
